@@ -1544,10 +1544,7 @@ func r6FilterStoredAsGiven(w *World, r *Report, rule string) {
 // r6EveryIdentityListed (R11.14): identityValues lists every derived identity it
 // meets; what is already in the list plays no part.
 func r6EveryIdentityListed(w *World, r *Report, rule string) {
-	f := w.SSAFunc(w.Method("compile", "Compiler", "identityValues"))
-	if f == nil {
-		panic(undecided{"Compiler.identityValues"})
-	}
+	f := identityClosureFunc(w)
 	found, every, why := everyIterationCalls(f, func(c ssa.CallInstruction) bool {
 		g := c.Common().StaticCallee()
 		return g != nil && nm(g) == "NewIdentity"
